@@ -464,6 +464,10 @@ def run(shard, ctx):
             if rng.random() < 0.3:
                 names.append(rng.choice(names))
             ranks = [rng.choice([0, 1, 2, 3, None]) for _ in names] if rng.random() < 0.5 else None
+            if ranks and i % 24 == 0:
+                # rank is an integer like any other: values beyond the four the pipeline assigns, and negative ones
+                ranks = [rng.choice([-2, -1, 0, 3, 5, 8, 10, 20, 30, 64, 1000, None]) for _ in names]
+                ctx.count("sets:with-ranks-outside-0-3")
             check_set(ctx, names, ranks, perms=shard.get("perms", 6), rng=rng)
     ctx.count("monitor_evals:name_natural_key", contracts.evals("C20.name_natural_key"))
 
@@ -492,7 +496,7 @@ def plan(tier, seed):
 
 
 def gates(c, tier):
-    need = {"sets:sorted": 2000, "law:numeric": 500, "law:numeric:names-with-hundreds-of-fields": 20, "law:roman": 500, "law:unloc": 500, "law:rename-resort": 200, "monitor_evals:name_natural_key": 50000,
+    need = {"sets:sorted": 2000, "sets:with-ranks-outside-0-3": 100, "law:numeric": 500, "law:numeric:names-with-hundreds-of-fields": 20, "law:roman": 500, "law:unloc": 500, "law:rename-resort": 200, "monitor_evals:name_natural_key": 50000,
             "cli:order-checked": 100, "cli:chromosome-list-with-3-or-more-lines": 30, "cli:three-or-more-haplotypes": 30, "cli:all_haplotigs-with-several-ranks": 5, "cli:file-merged-from-several-assemblies": 5, "monitor_evals:name_assemblies": 100,
             "cli:stdout-listings": 100, "cli:stdout-listing-with-several-ranks": 30}
     return [f"{k}>={v} (got {c.get(k, 0)})" for k, v in need.items() if c.get(k, 0) < v]
